@@ -200,6 +200,9 @@ static void attribute(const Desc& d, const Facts& f, const Plan& plan, const Wor
         case K_VIS: case K_ACT: add(P, "C03"); if (f.nested) add(P, "C07"); o.detail = "introspection answer differs"; break;
         case K_DATA: add(P, "C16"); add(P, "C15"); o.detail = "state data differs"; break;
         case K_ESC: add(P, "C12"); o.detail = "exception escaped the API"; break;
+        case K_LIVE: add(P, "C20"); if (after_copy) add(P, "C15");
+            o.detail = ((O ? O->site : E->site) == 1) ? "instance registry reports a lifetime error: " + registry().first_error
+                                                      : "number of live stored event instances differs from the number of pending occurrences"; break;
         case K_OP: o.level = "A"; add(P, "C04"); if (f.completion) add(P, "C10"); if (f.defer) add(P, "C05"); if (f.blocking) add(P, "C11");
             if (f.pseudo) add(P, "C09"); if (!posts_in_op && !stored_api) { add(P, "C01"); add(P, "C06"); }
             if (throw_in_op) add(P, "C12");
@@ -281,6 +284,12 @@ static bool check_invariants(const Desc& d, const Plan& plan, const World& real,
             o.verdict = V_INVARIANT; o.level = "I6"; o.dv.diverged = true; o.dv.index = i; o.dv.op = cur_op;
             o.props = {"C12", "C04"};
             o.detail = "machine " + std::to_string(r.site) + " still marked as processing at quiescence (wedged)";
+            return false;
+        }
+        if (r.kind == K_LIVE && r.site == 1 && r.val != 0) {
+            o.verdict = V_INVARIANT; o.level = "I4"; o.dv.diverged = true; o.dv.index = i; o.dv.op = cur_op;
+            o.props = {"C20"};
+            o.detail = "instance registry: " + registry().first_error;
             return false;
         }
         if (r.kind == K_ESC) {
